@@ -243,3 +243,16 @@ Definition obs_of (r : state * list output) : list Z :=
   Z.of_nat (length outs) ::
   concat (map (fun o => match o with OTx sess rid _ t => [sess; rid; t] | ORaise rid t => [-1; rid; t] end) outs) ++
   concat (map (fun t => [status_code (t_status t); t_deadline t]) (timers s)).
+
+(* for each timer: 1 if it is the pending timer of its pattern, else 0 (stale timers cannot be observed,
+   Proofs_c.sim_run; the correspondence step compares the status of pending timers only) *)
+Fixpoint pending_flags (ps : list (list Z * nat)) (ts : list timer) (i : nat) : list Z :=
+  match ts with
+  | [] => []
+  | t :: ts' => (match lookup (t_pat t) ps with
+                 | Some j => if (j =? i)%nat then 1 else 0
+                 | None => 0
+                 end) :: pending_flags ps ts' (S i)
+  end.
+
+Definition obs_pending (r : state * list output) : list Z := pending_flags (pats (fst r)) (timers (fst r)) 0.
